@@ -240,6 +240,7 @@ func c19Unit(c *RunCtx, unit int) {
 	pidRule := ruleSpec{Required: true, Match: "email"}
 	n := 0
 	var hist []string
+	var created []string
 	for i := 0; i < 40; i++ {
 		n++
 		b := world.NewBrowser(n)
@@ -251,6 +252,11 @@ func c19Unit(c *RunCtx, unit int) {
 		switch r.Intn(10) {
 		case 0:
 			pid = existing[r.Intn(2)]
+		case 2:
+			// an identifier registered earlier in this unit (with confirm loaded: still unconfirmed)
+			if len(created) > 0 {
+				pid = created[r.Intn(len(created))]
+			}
 		case 1:
 			pid = pickS(r, "", " ", "no-at-sign", "a@b", "a@b.C", "x y@z.test", "a@\nb.test", "TAKEN@site.test", "a@b.test\n")
 		}
@@ -342,6 +348,7 @@ func c19Unit(c *RunCtx, unit int) {
 			}
 			continue
 		}
+		created = append(created, ePid)
 		// exactly one account, the submitted one
 		if len(diff) != 1 || diff[0].Field != "<created>" || diff[0].PID != ePid {
 			fail("valid-registration-did-not-create-exactly-one-account", "valid registration of %q produced diff %v", ePid, diff)
